@@ -398,6 +398,22 @@ func (rf *ReplicaFollower) preSync(leaderSp StartPoint) (sp StartPoint, err erro
 	rf.logger.Infof("gap : leader(%v), follower(%v)", leaderSp, sp)
 
 	if sp.IsInitial() || !sp.IsValid() || sp.RunId != leaderSp.RunId {
+		// SetRunId re-labels what the follower holds under another id with the leader's id. The data is then asked
+		// from the leader's offset, so that copy can only be continued when it ends exactly there; in every other
+		// case aofSync would clear it. It must not wait for that : if the data request fails first, the next round
+		// finds the old bytes under the leader's id, takes them for a prefix of the leader's history and asks the
+		// leader to continue them.
+		var held StartPoint
+		if held, err = rf.channel.StartPoint(nil); err != nil {
+			err = errors.Join(ErrRestart, err)
+			return
+		}
+		if held.RunId != "" && held.RunId != leaderSp.RunId && held.Offset != leaderSp.Offset {
+			if err = rf.channel.DelRunId(held.RunId); err != nil {
+				err = errors.Join(ErrRestart, err)
+				return
+			}
+		}
 		if err = rf.channel.SetRunId(leaderSp.RunId); err != nil {
 			err = errors.Join(ErrRestart, err)
 			return
